@@ -77,6 +77,14 @@ class C04(Check):
                         p = r.randrange(ds, max(ds + 1, de)) if de > ds else r.randrange(len(d))
                         d[p] = r.randrange(256)
                     add(bytes(d), idx, "multi")
+                # declared CRC replaced by special values (central and local copies)
+                for val in (0, 0xffffffff, 1, m["crc"] ^ 0xffffffff):
+                    d = bytearray(data)
+                    d[m["central_start"] + 16:m["central_start"] + 20] = val.to_bytes(4, "little")
+                    d[m["header_start"] + 14:m["header_start"] + 18] = val.to_bytes(4, "little")
+                    add(bytes(d), idx, "crc=%08x" % val)
+                    if pw is None and sname != "dd":
+                        cases.append(("stream_all %s %d" % (hexs(bytes(d)), r.choice(bufs)), dict(kind="stream-crc", seed=sname, impl_only=True)))
                 # truncated payload: cut k bytes out of the data region, keeping the declared sizes
                 for k in (1, 2, 5, m["csize"] // 2):
                     if 0 < k <= m["csize"]:
